@@ -10,6 +10,7 @@ import (
 	"strings"
 
 	"verif/checks/c01"
+	"verif/checks/c14"
 	"verif/internal/drive"
 	"verif/internal/ev"
 	"verif/internal/gen"
@@ -122,7 +123,7 @@ func Run(r *ev.Run) {
 	pool := drive.StdPool()
 	r.Rule("(1) every document of G-schema/07 with the draft-07 $schema (http form; https form for every 5th) x instance pool vs R1 in draft-07 mode; " +
 		"(2) configuration axis: a pool of draft-sensitive schemas x $schema in {absent, 2020-12, draft-07 http, draft-07 https, draft-07 without '#', draft-04, 2019-09, 'x', 2020-12 with '#'}: supported values must give that draft's verdicts, unsupported ones must make Validate fail for every instance; " +
-		"(3) remote documents (with/without their own $schema, 1 and 2 hops, reached from the root object / allOf / properties / definitions/items / additionalProperties / with a pointer fragment) that need a draft-07 reading; non-trivial = R1 evaluated an applicable keyword (1,3) or the refusal was checked (2)")
+		"(3) remote documents (with/without their own $schema, 1 and 2 hops, reached from the root object / allOf / properties / definitions/items / additionalProperties / with a pointer fragment) that need a draft-07 reading; (4) every sequence of <=3 Resolve calls (roots of both drafts and two bases, optionally with a transient Loader fault) through ONE caching Loader: each call must give the result it gives with a fresh Loader; non-trivial = R1 evaluated an applicable keyword (1,3) or the refusal was checked (2)")
 	r.Assume("R1 implements draft-07 (validated on the 913 official draft-07 cases at start-up)",
 		"only draft-07 vocabulary is generated; remote documents never declare a different supported draft than the root")
 	if n, bad, err := ref.CheckSuite("/repo"); err != nil || len(bad) > 0 {
@@ -231,4 +232,8 @@ func Run(r *ev.Run) {
 			r.Sample(map[string]any{"root": c.root, "loader_documents": c.docs})
 		}
 	})
+	// (4) "read under the root's draft" must not depend on what the same Loader served to earlier
+	// Resolve calls of roots of another draft, nor on earlier calls that failed half-way
+	n := c14.LoaderHistories(r, thorough, "C02 ")
+	r.Set("loader_history_operations", n)
 }
